@@ -32,7 +32,7 @@ func init() {
 func c14Gen(tier string, seed int64) []core.Case {
 	var cs []core.Case
 	for i := 0; i < 5; i++ {
-		for _, law := range []string{"encdec", "homo", "domain"} {
+		for _, law := range []string{"encdec", "homo", "domain", "immutable"} {
 			id := fmt.Sprintf("vendored%d/%s", i, law)
 			cs = append(cs, core.Case{ID: id, Class: id, Kind: law, Cost: 4, P: core.P{"key": i, "n": tierN(tier, 6, 40)}})
 		}
@@ -95,6 +95,7 @@ func c14Run(c core.Case, env *core.Env) core.Result {
 		c14EncDec(&r, sk, c.P.Int("n"), rg)
 		c14Homo(&r, sk, c.P.Int("n"), rg)
 		c14Domain(&r, sk, rg)
+		c14Immutable(&r, sk)
 		r.NonTrivial = r.Obs["decrypt_compared"] > 0
 		r.Sample = map[string]any{"case": c.ID, "N_bits": sk.N.BitLen(), "P-Q_bits": new(big.Int).Sub(sk.P, sk.Q).BitLen()}
 		return r
@@ -120,6 +121,15 @@ func c14Run(c core.Case, env *core.Env) core.Result {
 		c14Homo(&r, sk, c.P.Int("n"), rg)
 	case "domain":
 		c14Domain(&r, sk, rg)
+	case "immutable":
+		c14Immutable(&r, sk)
+		if c.P.Int("key") == 0 {
+			var all []*paillier.PrivateKey
+			for i := range fx {
+				all = append(all, fx[i].PaillierSK)
+			}
+			c14Concurrent(&r, all)
+		}
 	}
 	r.NonTrivial = r.Obs["decrypt_compared"]+r.Obs["domain_refused"] > 0
 	return r
@@ -440,4 +450,189 @@ func c14Domain(r *core.Result, sk *paillier.PrivateKey, rg interface {
 	refuse("Decrypt(k*Q)", de(new(big.Int).Mul(sk.Q, big.NewInt(777))))
 	refuse("Decrypt(N)", de(N))
 	accept("Decrypt(1)", de(big1))
+}
+
+// c14Immutable: no operation may change its arguments or the key it is called on, results must not share storage with
+// either (writing into a result must not be visible through the key or a later result), and the same object may be
+// passed in two argument positions.
+func c14Immutable(r *core.Result, sk *paillier.PrivateKey) {
+	snapKey := func() string {
+		return fmt.Sprintf("%x|%x|%x|%x|%x|%x", sk.N, sk.PublicKey.N, sk.LambdaN, sk.PhiN, sk.P, sk.Q)
+	}
+	key0 := snapKey()
+	N := new(big.Int).Set(sk.N)
+	N2 := new(big.Int).Mul(N, N)
+	scribble := func(v *big.Int) {
+		if v != nil {
+			v.SetInt64(12345) // writes through the result's backing array where it is long enough
+			v.Lsh(v, 7)
+		}
+	}
+	chk := func(op string, args map[string][2]*big.Int) {
+		for name, pair := range args {
+			if pair[0].Cmp(pair[1]) != 0 {
+				r.Fail("arg-modified:"+op, "%s changed its argument %s (was %s, is %s)", op, name, hx(pair[1]), hx(pair[0]))
+			}
+		}
+		if k := snapKey(); k != key0 {
+			r.Fail("key-modified:"+op, "%s changed the key object it was called on", op)
+			key0 = k
+		}
+		r.Count("immutability_checked", 1)
+	}
+	ms := []*big.Int{big.NewInt(0), big.NewInt(1), big.NewInt(7), new(big.Int).Sub(N, big1), new(big.Int).Rsh(N, 1), new(big.Int).Sub(N, big2)}
+	for i, m := range ms {
+		m0 := new(big.Int).Set(m)
+		c, x, err := sk.EncryptAndReturnRandomness(rand.Reader, m)
+		if err != nil {
+			r.Fail("encrypt-refuses", "Encrypt refused m=%s: %v", hx(m0), err)
+			continue
+		}
+		chk("Encrypt", map[string][2]*big.Int{"m": {m, m0}})
+		cKeep, xKeep := new(big.Int).Set(c), new(big.Int).Set(x)
+		// results are the caller's: scribbling over x must not change c, the key, or what comes next
+		scribble(x)
+		if c.Cmp(cKeep) != 0 {
+			r.Fail("result-aliased:Encrypt", "writing into the returned randomness changed the returned ciphertext")
+		}
+		chk("Encrypt(result overwritten)", nil)
+		_ = xKeep
+		got, err := sk.Decrypt(c)
+		if err != nil || got.Cmp(m0) != 0 {
+			r.Fail("decrypt", "Dec(Enc(m)) wrong for m=%s: %v", hx(m0), err)
+		}
+		chk("Decrypt", map[string][2]*big.Int{"c": {c, cKeep}})
+		scribble(got)
+		chk("Decrypt(result overwritten)", map[string][2]*big.Int{"c": {c, cKeep}})
+		got2, err := sk.Decrypt(c)
+		if err != nil || got2.Cmp(m0) != 0 {
+			r.Fail("decrypt-repeat", "decrypting the same ciphertext object a second time gives another answer: %v", err)
+		}
+		// the same object in both positions
+		dbl, err := sk.HomoAdd(c, c)
+		if err != nil {
+			r.Fail("homoadd-refuses", "HomoAdd(c,c) refused: %v", err)
+		} else {
+			chk("HomoAdd(c,c)", map[string][2]*big.Int{"c": {c, cKeep}})
+			want := new(big.Int).Lsh(m0, 1)
+			want.Mod(want, N)
+			if d, err := sk.Decrypt(dbl); err != nil || d.Cmp(want) != 0 || ref.CRTDecrypt(dbl, sk.P, sk.Q).Cmp(want) != 0 {
+				r.Fail("homoadd", "Dec(HomoAdd(c,c)) != 2m for m=%s", hx(m0))
+			}
+			r.Count("decrypt_compared", 1)
+			scribble(dbl)
+			chk("HomoAdd(result overwritten)", map[string][2]*big.Int{"c": {c, cKeep}})
+		}
+		k := ms[(i+2)%len(ms)]
+		k0 := new(big.Int).Set(k)
+		pr, err := sk.HomoMult(k, c)
+		if err != nil {
+			r.Fail("homomult-refuses", "HomoMult refused: %v", err)
+		} else {
+			chk("HomoMult", map[string][2]*big.Int{"k": {k, k0}, "c": {c, cKeep}})
+			want := new(big.Int).Mul(k0, m0)
+			want.Mod(want, N)
+			if d, err := sk.Decrypt(pr); err != nil || d.Cmp(want) != 0 {
+				r.Fail("homomult", "Dec(HomoMult(k,c)) wrong for k=%s m=%s", hx(k0), hx(m0))
+			}
+			r.Count("decrypt_compared", 1)
+			scribble(pr)
+			chk("HomoMult(result overwritten)", map[string][2]*big.Int{"k": {k, k0}, "c": {c, cKeep}})
+		}
+		// scalar and ciphertext are the same object (a ciphertext below N used as a scalar as well)
+		small := new(big.Int).Mod(cKeep, N)
+		small0 := new(big.Int).Set(small)
+		if pr2, err := sk.HomoMult(small, small); err == nil {
+			chk("HomoMult(v,v)", map[string][2]*big.Int{"v": {small, small0}})
+			if want := new(big.Int).Exp(small0, small0, N2); pr2.Cmp(want) != 0 {
+				r.Fail("homomult-aliased", "HomoMult(v,v) with one object in both positions is not v^v mod N^2")
+			}
+		}
+		// key arguments passed as operands: N-1 built from the key's own N object must leave N alone
+		if _, err := sk.HomoMult(sk.N, c); err == nil {
+			r.Fail("domain-accepts:HomoMult(N,c)", "HomoMult accepted the key's own modulus object as a scalar")
+		}
+		chk("HomoMult(key.N,c)", map[string][2]*big.Int{"c": {c, cKeep}})
+		if _, err := sk.Encrypt(rand.Reader, sk.N); err == nil {
+			r.Fail("domain-accepts:Encrypt(N)", "Encrypt accepted the key's own modulus object as plaintext")
+		}
+		chk("Encrypt(key.N)", nil)
+		// derived values handed out by the key are the caller's too
+		for _, f := range []struct {
+			name string
+			get  func() *big.Int
+			want *big.Int
+		}{{"NSquare", sk.NSquare, N2}, {"Gamma", sk.Gamma, new(big.Int).Add(N, big1)}, {"PublicKey.NSquare", sk.PublicKey.NSquare, N2}} {
+			v := f.get()
+			if v.Cmp(f.want) != 0 {
+				r.Fail("key-derived:"+f.name, "%s() returns a wrong value", f.name)
+			}
+			scribble(v)
+			if v2 := f.get(); v2.Cmp(f.want) != 0 {
+				r.Fail("result-aliased:"+f.name, "writing into the value returned by %s() changes what it returns next", f.name)
+			}
+			chk(f.name+"(result overwritten)", nil)
+		}
+		// AsInts hands out the key's own N (by design, for hashing) next to a fresh Gamma: only the fresh one is the caller's
+		if ai := sk.AsInts(); len(ai) == 2 && ai[0].Cmp(N) == 0 {
+			scribble(ai[1])
+			chk("AsInts(Gamma overwritten)", nil)
+		}
+		if c3, err := sk.Encrypt(rand.Reader, m0); err != nil {
+			r.Fail("encrypt-refuses", "Encrypt fails after results were overwritten: %v", err)
+		} else if ref.CRTDecrypt(c3, sk.P, sk.Q).Cmp(m0) != 0 {
+			r.Fail("decrypt-crt", "an encryption made after earlier results were overwritten does not decrypt to its plaintext")
+		}
+	}
+}
+
+// c14Concurrent: one key object used from several goroutines at once (the protocol rounds do this: one goroutine per peer
+// encrypts and verifies under the same keys). Every result is judged exactly as in the sequential cases.
+func c14Concurrent(r *core.Result, keys []*paillier.PrivateKey) {
+	type bad struct{ sig, msg string }
+	const G = 8
+	ch := make(chan bad, G*len(keys)*8)
+	done := make(chan int64, G)
+	for g := 0; g < G; g++ {
+		go func(g int) {
+			var n int64
+			for it := 0; it < 3; it++ {
+				for ki, sk := range keys {
+					// a fresh copy of the public half, as a receiver would build it, next to the shared private object
+					pk := &sk.PublicKey
+					m := big.NewInt(int64(1000*g + 10*it + ki))
+					c, err := pk.Encrypt(rand.Reader, m)
+					if err != nil {
+						ch <- bad{"encrypt-refuses", fmt.Sprintf("concurrent Encrypt failed: %v", err)}
+						continue
+					}
+					if ref.CRTDecrypt(c, sk.P, sk.Q).Cmp(m) != 0 {
+						ch <- bad{"concurrent-encrypt", fmt.Sprintf("ciphertext made while %d goroutines share %d key objects does not decrypt to its plaintext (key %d)", G, len(keys), ki)}
+					}
+					if got, err := sk.Decrypt(c); err != nil || got.Cmp(m) != 0 {
+						ch <- bad{"concurrent-decrypt", fmt.Sprintf("concurrent Decrypt wrong (key %d): %v", ki, err)}
+					}
+					c2, err := pk.HomoMult(big.NewInt(3), c)
+					if err == nil {
+						c2, err = pk.HomoAdd(c2, c)
+					}
+					if err != nil || ref.CRTDecrypt(c2, sk.P, sk.Q).Cmp(new(big.Int).Mul(m, big.NewInt(4))) != 0 {
+						ch <- bad{"concurrent-homo", fmt.Sprintf("concurrent 3*c+c wrong (key %d): %v", ki, err)}
+					}
+					n++
+				}
+			}
+			done <- n
+		}(g)
+	}
+	var total int64
+	for g := 0; g < G; g++ {
+		total += <-done
+	}
+	close(ch)
+	for b := range ch {
+		r.Fail(b.sig, "%s", b.msg)
+	}
+	r.Count("concurrent_ops_compared", total)
+	r.Count("decrypt_compared", total)
 }
